@@ -17,7 +17,7 @@ CHECKS: dict[str, tuple[str, str, str, str]] = {
         "find_breaking_changes and judged against 80 call shapes actually bound by CPython; thorough adds a seeded sample of "
         "the 1.4e9 pairs of the 4-name/4-parameter alphabet. Both tiers also enumerate every ordered pair of 25 default texts "
         "(1, True, 1.0, 0x1, 'x', (), x.y ...) in 4 signature templates (changed value or type => reported; same value => silent) and a "
-        "sample of the pairs rendered as a method inherited by a public class from a private base and as static method, method and class method of a public class. Exhaustive inside the bound, nothing beyond it.",
+        "sample of the pairs rendered as a method inherited by a public class from a private base and as static method, method and class method of a public class, with the new side built through the Parameters API, and with the function re-exported from a private module on either side. Exhaustive inside the bound, nothing beyond it.",
         "CPython 3.12 binder is the oracle; call shapes <=4 (5) positional arguments and keyword names from the alphabet plus one foreign name.",
         "DESIGN.md 4/C10",
     ),
